@@ -703,6 +703,39 @@ func (w *world) doOp(op *Op) *reply {
 				c.state = "removed"
 			}
 		}
+		for _, cs := range op.DownAdd {
+			pod, ok := w.rt.pods[cs.Pod]
+			if _, exists := w.rt.ctrs[cs.ID]; exists || !ok || pod.state != "running" {
+				continue
+			}
+			taken := false
+			for _, o := range w.rt.active() {
+				if o.pod == pod && o.spec.Name == cs.Name {
+					taken = true
+				}
+			}
+			if taken {
+				continue
+			}
+			// created by the runtime alone: nothing adjusted it
+			c := &rCtr{spec: cs, cur: cs, pod: pod, state: "created"}
+			w.initTold(c)
+			w.rt.ctrs[cs.ID] = c
+			w.rt.order = append(w.rt.order, cs.ID)
+			w.res.Fault("restart.container-added-while-down")
+		}
+		for _, id := range op.DownStart {
+			if c, ok := w.rt.ctrs[id]; ok && c.state == "created" {
+				c.state = "running"
+				w.res.Fault("restart.container-started-while-down")
+			}
+		}
+		for _, id := range op.DownStop {
+			if c, ok := w.rt.ctrs[id]; ok && (c.state == "created" || c.state == "running") {
+				c.state = "stopped" // the plugin has seen no StopContainer for it
+				w.res.Fault("restart.container-exited-while-down")
+			}
+		}
 		resmgr.VerifStopEvents(w.rm)
 		w.res.Fault("restart.clean")
 		w.rejectedReconf = false
